@@ -176,8 +176,10 @@ def c02_oracle(case, obs):
         o, st = c02_oracle_dir(case, obs, wsid, rsid, label)
         out.extend(o)
         # delivery half: graceful close, nothing lost, everything delivered, reader kept reading
-        graceful = (st["closed_w"] and not st["lossy"] and not st["reset"] and not st["rdropped"]
-                    and not st["broken"] and not script_has_abort(case) and not any_rst(obs))
+        # without any drop of a read half / whole stream and without partitions no socket entry is
+        # ever removed, so no RST exists: an error on the reader's side is then itself the failure
+        graceful = (st["closed_w"] and not st["lossy"] and not st["rdropped"]
+                    and not st["broken"] and not script_has_abort(case))
         if graceful and cfg["mode"] == "remote" and in_flight_at_end(case, obs, whost):
             graceful = False
         if graceful and st["reads_after_close"]:
@@ -194,13 +196,46 @@ def c02_oracle(case, obs):
             late = [r for r in st["reads_after_close"] if r[0] >= settle]
             if late:
                 k, r = late[-1]
-                if r == "pending":
+                if r == "pending" or (isinstance(r, list) and r[0] == "err"):
                     out.append(("%s: every segment was delivered and the writer closed gracefully, but the reader "
-                                "still waits at step %d (read %d of %d bytes, no EOF)"
-                                % (label, k, len(st["got"]), len(st["accepted"])), None))
+                                "%s at step %d (read %d of %d bytes, no EOF)"
+                                % (label, "still waits" if r == "pending" else "got %s" % r[1], k,
+                                   len(st["got"]), len(st["accepted"])), None))
                 elif st["eof"] and len(st["got"]) != len(st["accepted"]):
                     out.append(("%s: EOF after %d of %d bytes" % (label, len(st["got"]), len(st["accepted"])), None))
     out.extend(graceful_drop_rule(case, obs))
+    out.extend(no_abort_no_reset_rule(case, obs))
+    return out
+
+
+def no_abort_no_reset_rule(case, obs):
+    """No read half / whole stream is dropped and nothing is partitioned: then no socket entry is
+    removed before both halves of its side are gone, so nobody may see ConnectionReset, and a
+    write half that was not shut down may not see BrokenPipe."""
+    out = []
+    if script_has_abort(case):
+        return out
+    for st in case["steps"]:
+        if any(a[0].startswith("partition") for a in st["ctl"]):
+            return out
+    res = {(r[0], r[1], r[2]): r[3] for r in obs["res"]}
+    shut = set()
+    for k, st in enumerate(case["steps"]):
+        for h in (0, 1):
+            for i, cmd in enumerate(st.get("hosts", {}).get(str(h), [])):
+                r = res.get((k, h, i))
+                nm = cmd[0]
+                if nm in ("read", "peek") and isinstance(r, list) and r[0] == "err":
+                    out.append(("step %d: %s on stream %d failed with %s although no read half was ever dropped and "
+                                "nothing was partitioned (both ends only closed their write sides)"
+                                % (k, nm, cmd[1], r[1]), None))
+                    return out
+                if nm in ("try_write", "write") and cmd[1] not in shut and r == ["err", "BrokenPipe"]:
+                    out.append(("step %d: write on stream %d failed with BrokenPipe although its write half was not "
+                                "shut down and no read half was ever dropped" % (k, cmd[1]), None))
+                    return out
+                if nm in ("shutdown", "drop_w") and r in (["ok"], "none"):
+                    shut.add(cmd[1])
     return out
 
 
@@ -306,7 +341,7 @@ class Spec(PropSpec):
         for i in range(n):
             r = i % 6
             if r == 4:
-                cases.append(F.gen_reqresp(ctx.rng))
+                cases.append(F.gen_reqresp(ctx.rng) if (i // 6) % 2 else F.gen_halfclose(ctx.rng))
             elif r == 5:
                 cases.append(F.gen_parked(ctx.rng))
             else:
